@@ -152,6 +152,111 @@ theorem advWhile_stop (p : UInt8 → Bool) (z : Z) :
     ∀ b t, (advWhile p z).after = b :: t → p b = false :=
   advWhileF_stop p _ z (Nat.le_refl _)
 
+/-! ### `advLine` (the loops that stop at a line end) and `atEol` -/
+
+theorem atEol_cons (c : UInt8) (t : Bytes) : atEol (c :: t) = (c == 0x0A || (c == 0x0D && headIs 0x0A t)) := rfl
+
+theorem atEol_nil : atEol [] = false := rfl
+
+/-- at a byte that is neither CR nor LF the lexer is not at a line end -/
+theorem atEol_of_ne {c : UInt8} {t : Bytes} (h1 : c ≠ 0x0A) (h2 : c ≠ 0x0D) : atEol (c :: t) = false := by
+  simp [atEol, h1, h2]
+
+theorem atEol_lf (t : Bytes) : atEol (0x0A :: t) = true := rfl
+
+theorem atEol_crlf (t : Bytes) : atEol (0x0D :: 0x0A :: t) = true := rfl
+
+/-- at a line end the next byte is LF, or CR with LF behind it -/
+theorem atEol_cases {a : Bytes} (h : atEol a = true) :
+    (∃ t, a = 0x0A :: t) ∨ (∃ t, a = 0x0D :: 0x0A :: t) := by
+  cases a with
+  | nil => simp [atEol] at h
+  | cons c t =>
+    simp only [atEol, Bool.or_eq_true, Bool.and_eq_true, beq_iff_eq] at h
+    rcases h with rfl | ⟨rfl, h⟩
+    · exact Or.inl ⟨t, rfl⟩
+    · cases t with
+      | nil => simp [headIs] at h
+      | cons d u =>
+        simp only [headIs, beq_iff_eq] at h
+        subst h
+        exact Or.inr ⟨u, rfl⟩
+
+theorem advLineF_adv (p : UInt8 → Bool) (n : Nat) (z : Z) : Adv z (advLineF p n z) := by
+  induction n generalizing z with
+  | zero => exact Adv.refl z
+  | succ n ih =>
+    unfold advLineF
+    split
+    · exact Adv.refl z
+    · split
+      · exact (Adv.advance z).trans (ih _)
+      · exact Adv.refl z
+
+theorem advLine_adv (p : UInt8 → Bool) (z : Z) : Adv z (advLine p z) := advLineF_adv p _ z
+
+theorem advLineF_fuel (p : UInt8 → Bool) (n m : Nat) (z : Z)
+    (hn : z.after.length ≤ n) (hm : z.after.length ≤ m) : advLineF p n z = advLineF p m z := by
+  induction n generalizing m z with
+  | zero =>
+    have h0 : z.after = [] := List.eq_nil_of_length_eq_zero (by omega)
+    cases m <;> simp [advLineF, h0]
+  | succ n ih =>
+    cases m with
+    | zero =>
+      have h0 : z.after = [] := List.eq_nil_of_length_eq_zero (by omega)
+      simp [advLineF, h0]
+    | succ m =>
+      unfold advLineF
+      split
+      · rfl
+      · rename_i b t heq
+        split
+        · have := advance_rem_lt z (by simp [heq])
+          exact ih m (advance z) (by omega) (by omega)
+        · rfl
+
+theorem advLine_eq_fuel (p : UInt8 → Bool) (z : Z) (n : Nat) (hn : z.after.length ≤ n) :
+    advLine p z = advLineF p n z := advLineF_fuel p _ n z (Nat.le_refl _) hn
+
+/-- the loop consumes the first byte if it satisfies the condition and is not at a line end -/
+theorem advLine_lt (p : UInt8 → Bool) (z : Z) {b : UInt8} {t : Bytes} (h : z.after = b :: t)
+    (hp : (p b && !atEol (b :: t)) = true) : (advLine p z).after.length < z.after.length := by
+  unfold advLine
+  rw [h]
+  simp only [List.length_cons, advLineF, h, hp, if_true]
+  have h1 := advance_rem_lt z (by simp [h])
+  have h2 := (advLineF_adv p t.length (advance z)).after_le
+  simp [h] at h1
+  omega
+
+/-- where the loop stops: end of input, a line end, or a byte failing the condition -/
+theorem advLineF_stop (p : UInt8 → Bool) (n : Nat) (z : Z) (hn : z.after.length ≤ n) :
+    ∀ b t, (advLineF p n z).after = b :: t → (p b && !atEol (b :: t)) = false := by
+  induction n generalizing z with
+  | zero =>
+    intro b t h
+    have h0 : z.after = [] := List.eq_nil_of_length_eq_zero (by omega)
+    simp [advLineF, h0] at h
+  | succ n ih =>
+    intro b t
+    unfold advLineF
+    split
+    · rename_i h0; simp [h0]
+    · rename_i c u heq
+      split
+      · have := advance_rem_lt z (by simp [heq])
+        exact ih (advance z) (by omega) b t
+      · rename_i hp
+        intro h
+        rw [heq] at h
+        cases h
+        simpa using hp
+
+theorem advLine_stop (p : UInt8 → Bool) (z : Z) :
+    ∀ b t, (advLine p z).after = b :: t → (p b && !atEol (b :: t)) = false :=
+  advLineF_stop p _ z (Nat.le_refl _)
+
 /-! ### the loops of `scanAccount` and `scanNumber` -/
 
 theorem bump_after_lt (z : Z) {b : UInt8} {t : Bytes} (h : z.after = b :: t) :
@@ -314,34 +419,43 @@ theorem punct_ok (ty : TokType) (v : Bytes) (z : Z) (h : z.after ≠ []) (hty : 
 
 theorem scanCode_ok (z : Z) (h : z.after ≠ []) : Ok z (scanCode z) := by
   have h1 := Adv.advance z
-  have h2 := advWhile_adv (fun c => c != 0x29 && c != 0x0A) (advance z)
-  have h3 := advIf_adv (· == 0x29) (advWhile (fun c => c != 0x29 && c != 0x0A) (advance z))
+  have h2 := advLine_adv (fun c => c != 0x29) (advance z)
+  have h3 := advIf_adv (· == 0x29) (advLine (fun c => c != 0x29) (advance z))
   have hlt := advance_rem_lt z h
   have := (h2.trans h3).after_le
   exact mkTok_ok _ _ (Adv.refl z) (h1.trans (h2.trans h3)) (by omega) (by decide)
 
 theorem scanQuotedCommodity_ok (z : Z) (h : z.after ≠ []) : Ok z (scanQuotedCommodity z) := by
   have h1 := Adv.advance z
-  have h2 := advWhile_adv (fun c => c != 0x22 && c != 0x0A) (advance z)
-  have h3 := advIf_adv (· == 0x22) (advWhile (fun c => c != 0x22 && c != 0x0A) (advance z))
+  have h2 := advLine_adv (fun c => c != 0x22) (advance z)
+  have h3 := advIf_adv (· == 0x22) (advLine (fun c => c != 0x22) (advance z))
   have hlt := advance_rem_lt z h
   have := (h2.trans h3).after_le
   exact mkTok_ok _ _ (Adv.refl z) (h1.trans (h2.trans h3)) (by omega) (by decide)
 
 theorem scanComment_ok (z : Z) (h : z.after ≠ []) : Ok z (scanComment z) := by
   have h1 := Adv.advance z
-  have h2 := advWhile_adv (fun c => c != 0x0A) (advance z)
+  have h2 := advLine_adv (fun _ => true) (advance z)
   have hlt := advance_rem_lt z h
   have := h2.after_le
   exact mkTok_ok _ _ (Adv.refl z) (h1.trans h2) (by omega) (by decide)
 
 theorem scanIndent_ok (z : Z) {b : UInt8} {t : Bytes} (h : z.after = b :: t)
-    (hb : (isWhitespace b && b != 0x0A) = true) : Ok z (scanIndent z) :=
-  mkTok_ok _ _ (Adv.refl z) (advWhile_adv _ z) (advWhile_lt _ z h hb) (by decide)
+    (hb : (isWhitespace b && !atEol (b :: t)) = true) : Ok z (scanIndent z) :=
+  mkTok_ok _ _ (Adv.refl z) (advLine_adv _ z) (advLine_lt _ z h hb) (by decide)
 
 theorem scanNewline_ok (z : Z) (h : z.after ≠ []) : Ok z (scanNewline z) := by
-  have h1 := Adv.advance z
-  exact mkTok_ok _ _ (Adv.refl z) (h1.congr rfl rfl) (advance_rem_lt z h) (by decide)
+  have h0 := advIf_adv (· == 0x0D) z
+  have h1 := Adv.advance (advIf (· == 0x0D) z)
+  have hlt : (advance (advIf (· == 0x0D) z)).after.length < z.after.length := by
+    by_cases hz : (advIf (· == 0x0D) z).after = []
+    · have h3 : (advance (advIf (· == 0x0D) z)).after.length ≤ 0 := by simpa [hz] using h1.after_le
+      have h4 : 0 < z.after.length := List.length_pos_iff.mpr h
+      omega
+    · have := advance_rem_lt _ hz
+      have := h0.after_le
+      omega
+  exact mkTok_ok _ _ (Adv.refl z) ((h0.trans h1).congr rfl rfl) hlt (by decide)
 
 theorem scanAt_ok (z : Z) (h : z.after ≠ []) : Ok z (scanAt z) := by
   have h1 := Adv.advance z
@@ -370,8 +484,8 @@ theorem scanCurrencySymbol_ok (z : Z) {b : UInt8} {t : Bytes} (h : z.after = b :
   exact mkTok_ok _ _ (Adv.refl z) (Adv.bump z _) (bump_after_lt z h) (by decide)
 
 theorem scanText_ok (z : Z) {b : UInt8} {t : Bytes} (h : z.after = b :: t)
-    (hb : (!(b == 0x0A || b == 0x3B || b == 0x7C)) = true) : Ok z (scanText z) :=
-  mkTok_ok _ _ (Adv.refl z) (advWhile_adv _ z) (advWhile_lt _ z h hb) (by decide)
+    (hb : ((!(b == 0x3B || b == 0x7C)) && !atEol (b :: t)) = true) : Ok z (scanText z) :=
+  mkTok_ok _ _ (Adv.refl z) (advLine_adv _ z) (advLine_lt _ z h hb) (by decide)
 
 theorem scanNumber_ok (z : Z) {b : UInt8} {t : Bytes} (h : z.after = b :: t) (hb : isDigit b = true) :
     Ok z (scanNumber z) := by
@@ -420,6 +534,15 @@ theorem scanAccount_ok (z : Z) {b : UInt8} {t : Bytes} (h : z.after = b :: t)
       have := (scanAccountF_adv t.length (z.bump (decodeRune (b :: t)).2) _ (Adv.refl _)).1.after_le
       omega
 
+/-- a letter is none of `;`, `|`, CR, LF: `scanText` consumes it -/
+theorem letter_text_ok {b : UInt8} {t : Bytes} (hb : isLetter b = true) :
+    ((!(b == 0x3B || b == 0x7C)) && !atEol (b :: t)) = true := by
+  have h1 : b ≠ 0x0A := by intro e; subst e; revert hb; decide
+  have h2 : b ≠ 0x0D := by intro e; subst e; revert hb; decide
+  have h3 : b ≠ 0x3B := by intro e; subst e; revert hb; decide
+  have h4 : b ≠ 0x7C := by intro e; subst e; revert hb; decide
+  simp [atEol_of_ne h1 h2, h3, h4]
+
 theorem scanDirectiveOrAccount_ok (z : Z) {b : UInt8} {t : Bytes} (h : z.after = b :: t)
     (hb : isLetter b = true) : Ok z (scanDirectiveOrAccount z) := by
   unfold scanDirectiveOrAccount
@@ -429,12 +552,7 @@ theorem scanDirectiveOrAccount_ok (z : Z) {b : UInt8} {t : Bytes} (h : z.after =
   · split
     · rename_i hl
       exact scanAccount_ok z h hl
-    · refine scanText_ok z h ?_
-      revert hb
-      simp only [isLetter]
-      intro hb
-      cases h1 : (b == 0x0A) <;> cases h2 : (b == 0x3B) <;> cases h3 : (b == 0x7C) <;> simp_all <;>
-        (subst_vars; revert hb; decide)
+    · exact scanText_ok z h (letter_text_ok hb)
 
 theorem between_ne_nil_lt {s e : Z} (h : between s e ≠ []) : s.before.length < e.before.length := by
   unfold between at h
@@ -444,7 +562,7 @@ theorem between_ne_nil_lt {s e : Z} (h : between s e ≠ []) : s.before.length <
     simp [this] at h
 
 theorem scanCommodityOrText_ok (C : Classes) (z : Z) {b : UInt8} {t : Bytes} (h : z.after = b :: t)
-    (hb : (!(b == 0x0A || b == 0x3B || b == 0x7C)) = true) : Ok z (scanCommodityOrText C z) := by
+    (hb : ((!(b == 0x3B || b == 0x7C)) && !atEol (b :: t)) = true) : Ok z (scanCommodityOrText C z) := by
   unfold scanCommodityOrText
   simp only []
   have h1 := advWhile_adv isLetter z
@@ -504,7 +622,7 @@ theorem scanInLine_res (C : Classes) (z0 : Z) : Res z0 (scanInLine C z0) := by
     refine ok_ite (fun _ => scanStatus_ok z hne) fun _ => ?_
     refine ok_ite (fun _ => scanCurrencySymbol_ok z heq) fun _ => ?_
     refine ok_ite (fun _ => scanQuotedCommodity_ok z hne) fun _ => ?_
-    have hb : (!(ch == 0x0A || ch == 0x3B || ch == 0x7C)) = true := by
+    have hb : ((!(ch == 0x3B || ch == 0x7C)) && !atEol (ch :: t)) = true := by
       simp only [Bool.not_eq_true] at c1 c2 c3
       simp [c1, c2, c3]
     refine ok_ite (fun _ => ok_ite (fun _ => scanSign_ok z hne) fun _ => scanText_ok z heq hb) fun _ => ?_
@@ -512,30 +630,31 @@ theorem scanInLine_res (C : Classes) (z0 : Z) : Res z0 (scanInLine C z0) := by
     refine ok_ite (fun _ => ok_ite (fun hl => scanAccount_ok z heq hl) fun _ => scanCommodityOrText_ok C z heq hb) fun _ => ?_
     exact scanText_ok z heq hb
 
+theorem scanLineStartAt_res (C : Classes) (z : Z) {b : UInt8} {t : Bytes} (heq : z.after = b :: t) :
+    Res z (scanLineStartAt C z) := by
+  unfold scanLineStartAt
+  have hne : z.after ≠ [] := by simp [heq]
+  have hp : peek z = b := by simp [peek, heq]
+  simp only [hp, heq]
+  split
+  · exact (scanComment_ok z hne).res
+  split
+  · rename_i hw
+    exact (scanIndent_ok z heq hw).res
+  split
+  · rename_i hd
+    exact (scanDate_ok z heq hd).res
+  split
+  · rename_i hl
+    exact (scanDirectiveOrAccount_ok z heq hl).res
+  · exact scanInLine_res C z
+
 theorem scanLineStart_res (C : Classes) (z0 : Z) {b : UInt8} {t : Bytes} (h : z0.after = b :: t) :
     Res z0 (scanLineStart C z0) := by
   unfold scanLineStart
-  simp only []
   have hs : Adv z0 { z0 with atStart := false } := (Adv.refl z0).congr rfl rfl
-  generalize hz : ({ z0 with atStart := false } : Z) = z at hs ⊢
-  have heq : z.after = b :: t := by rw [← hz]; exact h
-  have hne : z.after ≠ [] := by simp [heq]
-  have hp : peek z = b := by simp [peek, heq]
-  rw [hp]
-  split
-  · exact Res.of_ok_adv hs (scanComment_ok z hne)
-  split
-  · rename_i hw
-    exact Res.of_ok_adv hs (scanIndent_ok z heq hw)
-  split
-  · rename_i hd
-    exact Res.of_ok_adv hs (scanDate_ok z heq hd)
-  split
-  · rename_i hl
-    exact Res.of_ok_adv hs (scanDirectiveOrAccount_ok z heq hl)
-  · have := scanInLine_res C z
-    have hlen : z.after.length = z0.after.length := by rw [heq, h]
-    exact ⟨this.toGood.of_adv hs, fun _ => by rw [← hlen]; exact this.prog hne, this.eof, this.nonempty⟩
+  have := scanLineStartAt_res C { z0 with atStart := false } (b := b) (t := t) h
+  exact ⟨this.toGood.of_adv hs, this.prog, this.eof, this.nonempty⟩
 
 /-- Everything `Next` guarantees, for every state, every byte string, every classifier. -/
 theorem next_res (C : Classes) (z : Z) : Res z (next C z) := by
